@@ -116,8 +116,15 @@ class Translator:
             for st in fn.body[:fn.body.index(hits[0])]:
                 ok = isinstance(st, ast.Expr) and isinstance(st.value, ast.Constant) or (
                     isinstance(st, ast.Assign) and len(st.targets) == 1 and isinstance(st.targets[0], ast.Name)
-                    and ast.unparse(st.value) == f"kwargs.get('{st.targets[0].id}')" and st.targets[0].id in env)
+                    and ast.unparse(st.value) == f"kwargs.get('{st.targets[0].id}')" and st.targets[0].id in env) or (
+                    # an earlier field of the same object, declared as a parameter of this spec: its own meaning is given by its own spec, this one reads its NEW value
+                    isinstance(st, ast.Assign) and len(st.targets) == 1 and ast.unparse(st.targets[0]) in spec.attrs.get("assigned_before", ()))
                 if not ok: raise Unsupported(f"{spec.func}: unexpected statement before {tgt}: {ast.unparse(st)[:50]}")
+            if "only_after" in spec.attrs:           # strict: nothing but the listed statements may follow (a later in-place edit of the field would change its meaning)
+                after = [" ".join(ast.unparse(st).split()) for st in fn.body[fn.body.index(hits[0]) + 1:]]
+                allowed = spec.attrs["only_after"]
+                bad = [a_ for a_ in after if not any(a_ == w or (w.endswith("=") and a_.startswith(w)) for w in allowed)]
+                if bad: raise Unsupported(f"{spec.func}: unexpected statement after {tgt}: {bad[0][:50]}")
             t, ty = self.tr(hits[0].value, env)
             if not self.compatible(ty, spec.ret): raise Unsupported(f"{spec.func}: {tgt} has type {ty}, expected {spec.ret}")
             ps = " ".join(f"({cq} : {coqty(tt)})" for _, cq, tt in spec.params)
@@ -171,6 +178,7 @@ class Translator:
         if isinstance(n, ast.Constant):
             if n.value is None: return ("None", OPT(None))
             if isinstance(n.value, bool): return ("true" if n.value else "false", BOOL)
+            if isinstance(n.value, str) and n.value in sp.attrs.get("str_consts", {}): return sp.attrs["str_consts"][n.value]
             if isinstance(n.value, int) and sp.attrs.get("len_as_Z"): return (f"({n.value})%Z", ZT)
             if isinstance(n.value, int) and n.value >= 0: return (str(n.value), INTLIT)
             raise Unsupported(f"const {n.value!r}")
@@ -212,6 +220,14 @@ class Translator:
                 a, ta = self.tr(n.left, env)
                 if not (isinstance(ta, tuple) and ta[0] == "option"): raise Unsupported("is None on non-option")
                 return (f"(is_some {a})" if isinstance(op, ast.IsNot) else f"(negb (is_some {a}))", BOOL)
+            if isinstance(op, (ast.In, ast.NotIn)) and isinstance(rhs, ast.Call) and isinstance(rhs.func, ast.Attribute) and rhs.func.attr == "values" \
+                    and not rhs.args and not rhs.keywords:
+                dct, td = self.tr(rhs.func.value, env)
+                a, ta = self.tr(n.left, env)
+                if isinstance(td, tuple) and td[0] == "dict" and td[2] == NAT and ta in (NAT, INTLIT):
+                    t = f"(existsb (Nat.eqb {a}) (map snd {dct}))"
+                    return (t if isinstance(op, ast.In) else f"(negb {t})", BOOL)
+                raise Unsupported(f"membership in values() at {td} / {ta}")
             a, ta = self.tr(n.left, env); b, tb = self.tr(rhs, env)
             a, b, ty = self.unify(a, ta, b, tb)
             if ty == X:
@@ -246,12 +262,27 @@ class Translator:
         if isinstance(n, ast.IfExp):
             c, tc = self.tr(n.test, env); self.need(tc, BOOL)
             a, ta = self.tr(n.body, env); b, tb = self.tr(n.orelse, env)
+            isres = lambda t: isinstance(t, tuple) and t[0] == "result"
+            if isres(ta) and not isres(tb) and self.compatible(tb, ta[1]): b, tb = f"(Some {b})", ta          # one branch may raise (IndexError ...), the other is a value
+            elif isres(tb) and not isres(ta) and self.compatible(ta, tb[1]): a, ta = f"(Some {a})", tb
             a, b, ty = self.unify(a, ta, b, tb)
             return (f"(if {c} then {a} else {b})", ty)
         if isinstance(n, ast.Subscript):
             return self.tr_subscript(n, env)
         if isinstance(n, ast.ListComp):
             return self.tr_listcomp(n, env)
+        if isinstance(n, ast.DictComp) and len(n.generators) == 1 and not n.generators[0].ifs and not n.generators[0].is_async:
+            # {k: i for i, k in enumerate(E)} over label keys: a fold of ldict_set in iteration order (a repeated key overwrites in place), compared with the section's eqb
+            g = n.generators[0]
+            if isinstance(g.iter, ast.Call) and ast.unparse(g.iter.func) == "enumerate" and len(g.iter.args) == 1 and isinstance(g.target, ast.Tuple) \
+                    and len(g.target.elts) == 2 and all(isinstance(e, ast.Name) for e in g.target.elts) \
+                    and isinstance(n.key, ast.Name) and isinstance(n.value, ast.Name) and n.key.id == g.target.elts[1].id and n.value.id == g.target.elts[0].id \
+                    and "label_eqb" in sp.attrs:
+                L, tL = self.tr(g.iter.args[0], env)
+                if isinstance(tL, tuple) and tL[0] == "list" and tL[1] == sp.attrs["label_eqb"][1]:
+                    eqb = sp.attrs["label_eqb"][0]
+                    return (f"(fold_left (fun d_ p_ => ldict_set {tL[1]} {eqb} (snd p_) (fst p_) d_) (combine (seq 0 (length {L})) {L}) [])", DICT(tL[1], NAT))
+            raise Unsupported(f"dict comprehension {ast.unparse(n)[:60]}")
         if isinstance(n, ast.Tuple):
             parts = [self.tr(e, env) for e in n.elts]
             unfresh = lambda t: t[1:] if isinstance(t, tuple) and t and t[0] == "fresh" else t
